@@ -16,14 +16,27 @@ package fiber
 //@ fn parseAddrHost(s string) string
 
 // C06: the copying variant of the conversion (installed by New iff config.Immutable) returns a stable string.
+// (copies(f) is DEFINED in zz_contracts_c06_verif.go: f is getStringImmutable or getBytesImmutable.)
+// A function-typed field has no body: its contract is what every function stored in the field must satisfy. The field holds
+// utils.UnsafeString (assumed dependency contract `result == str(b)`) or getStringImmutable (checked: same-content,
+// no-view-conversion) - clauses only-the-two-conversions / immutable-installs-copying-conversions of New; `assumed` is the
+// syntax for a key without a body. copying-variant rests on: getStringImmutable returns the value of the built-in
+// conversion string(b) and makes no view (checked) + the Go conversion allocates (language assumption).
 //@ fn stable(s string) bool
-//@ fn copies(f ref) bool
 //@ func App.getString assumed pure
 //@   ensures result == str(arg0)
 //@   ensures [C06] copying-variant: copies(fnvalue) ==> stable(result)
 
-//@ func (*DefaultCtx).Get assumed pure
-//@   defines result == reqHeader(c, key, epoch)
+// Get (checked against its body since round B; it forwards to the generic GetReqHeader[string], whose result clauses
+// are `trusted` in zz_contracts_c06_verif.go: a value of type-parameter type has no sort in the generator).
+// reqHeader(c, key, ep) names the value of the request header `key`: what Get returns when no default is given.
+// With a default the former `defines result == reqHeader(c, key, epoch)` was WRONG (Get(k) == "" and Get(k, "d") == "d"
+// cannot both be reqHeader(c, k, epoch)): the default replaces an empty value only.
+//@ func (*DefaultCtx).Get
+//@   props C10 C06 C07
+//@   pure
+//@   ensures header-value: len(defaultValue) == 0 ==> result == reqHeader(c, key, epoch)
+//@   ensures header-value-or-default: len(defaultValue) > 0 ==> result == ite(reqHeader(c, key, epoch) == "", defaultValue[0], reqHeader(c, key, epoch))
 //@   ensures [C06] immutable-stable: c.app.config.Immutable && copies(c.app.getString) ==> stable(result) || (len(defaultValue) > 0 && result == defaultValue[0])
 
 // parseAddr (checked against its body; `defines` only names the result): host = raw up to a ':' (the last one, by
@@ -335,11 +348,15 @@ package fiber
 
 // (methodExist: checked contract in zz_contracts_c01idx_verif.go)
 
-// (checked since the binder round: was `assumed`)
+// NewError (checked against its body since round B): a NEW *Error carrying the given code; the message is the first
+// optional argument when there is one, the standard status text of the code otherwise (statusText: the value of
+// utils.StatusMessage, named by its dependency contract).
 //@ func NewError fresh
-//@   props C08 C07
+//@   props C01 C08 C07
 //@   pure
-//@   ensures carries-code: result != nil && result.Code == code
+//@   ensures carries-code: result.Code == code
+//@   ensures new-object: result != nil && !old(allocated(result))
+//@   ensures message-given-or-status-text: result.Message == ite(len(message) > 0, message[0], statusText(code))
 
 // next: scans the bucket from the position after c.indexRoute, skips mount markers and routes that do not
 // match, and runs the first handler of the first route that matches; nothing matched => error.
@@ -472,7 +489,7 @@ package fiber
 //@   ensures minus-one-iff-not-configured: result == -1 ==> forall(k, 0, len(app.config.RequestMethods), app.config.RequestMethods[k] != s)
 // every registered route carries a well-formed parser (register establishes it for the route it hands over, addRoute keeps it)
 //@ macro wfStackOf(app, wm) = forall(wi, 0, len(app.stack[wm]), app.stack[wm][wi] != nil && wfParser(app.stack[wm][wi].routeParser))
-//@ func (*Hooks).executeOnRouteHooks assumed pure
+// (*Hooks).executeOnRouteHooks: checked contract in zz_contracts_rootassumed_verif.go (round B; it was `assumed pure` here).
 //@ macro lastOf(app, m) = old(app.stack[m])[old(len(app.stack[m])) - 1]
 //@ macro mergeable(app, m, route) = old(len(app.stack[m])) > 0 && old(lastOf(app, m).Path) == old(route.Path) && old(route.use) == old(lastOf(app, m).use) && !old(route.mount) && !old(lastOf(app, m).mount)
 //@ func (*App).addRoute
